@@ -131,7 +131,9 @@ func callGFunction(L *LState, tailcall bool, baseframe *callFrame) bool {
 		wantret = gfnret
 	}
 
-	if tailcall && L.Parent != nil && L.stack.Sp() == 1 {
+	if L.Parent != nil && L.stack.Sp() == 1 {
+		// the host function was the last frame of a coroutine (tail called by its body, or the body itself):
+		// the coroutine ends here
 		switchToParentThread(L, wantret, false, true)
 		return true
 	}
